@@ -137,6 +137,10 @@ Definition chk_cand2_complete_on (T : tables) (R : rmap) (e : list (Z * Z)) : bo
              forallb (fun b => if snd a =? snd b then existsb (Z.eqb (fst b)) c else true) e) e
   && forallb (fun e => is_member R (fst e)) (ul_special T).
 Definition chk_cand2_complete (T : tables) (R : rmap) : bool := chk_cand2_complete_on T R (els R).
+(* the stored ToUpperLower pairs and special entries are scalar values *)
+Definition chk_ul_valid (T : tables) : bool :=
+  ul_check T (fun a b => valid_rune a && valid_rune b)
+  && forallb (fun e => let '(up, lo) := snd e in valid_rune up && valid_rune lo) (ul_special T).
 
 (* the checks are passed around wrapped, so that arithmetic tactics do not try to look inside them *)
 Definition holds (b : bool) : Prop := b = true.
@@ -506,6 +510,38 @@ Proof.
       destruct (Hself eq_refl) as [E1 | E2].
       { replace (u =? U) with true by lia. reflexivity. }
       { replace (u =? l) with true by lia. rewrite orb_true_r. reflexivity. }
+Qed.
+
+
+(* ---- the ToUpperLower step returns scalar values ---- *)
+Hypothesis HULV : holds (chk_ul_valid T).
+
+Lemma ul_hack_valid u :
+  valid_rune u = true ->
+  valid_rune (fst (ul_hack_of T u)) = true /\ valid_rune (snd (ul_hack_of T u)) = true.
+Proof.
+  intros Vu. unfold ul_hack_of.
+  pose proof HULV as C. unfold holds, chk_ul_valid in C. apply andb_true_iff in C as [C1 C2].
+  pose proof (ul_check_spec _ C1) as C1'. clear C1. rewrite forallb_forall in C2.
+  destruct ((u =? 304) || (u =? 305)) eqn:H; cbv iota; [cbn [fst snd]; split; exact Vu|].
+  unfold to_upper_lower. destruct (u <=? 128) eqn:A.
+  { destruct ((65 <=? u) && (u <=? 90)) eqn:B1; cbn [fst snd]; [unfold valid_rune, MaxRune; lia|].
+    destruct ((97 <=? u) && (u <=? 122)) eqn:B2; cbn [fst snd]; [unfold valid_rune, MaxRune; lia|split; exact Vu]. }
+  assert (Hmiss : let x := match assoc u (ul_special T) with
+                           | Some (up, lo) => (up, lo, true)
+                           | None => (u, u, false) end in
+                  valid_rune (fst (fst x)) = true /\ valid_rune (snd (fst x)) = true).
+  { cbv zeta. destruct (assoc u (ul_special T)) as [[up lo]|] eqn:As; cbn [fst snd]; [|split; exact Vu].
+    specialize (C2 _ (assoc_in _ _ _ As)). cbn [fst snd] in C2. apply andb_true_iff in C2. exact C2. }
+  cbv zeta in Hmiss. unfold slot.
+  destruct (PositiveMap.find _ (ul_map T)) as [v|] eqn:F.
+  - destruct v as [|p0 [|p1 [|x3 v]]]; try (cbn [fst snd]; split; exact Vu; fail).
+    destruct ((p0 =? u32 u) || (p1 =? u32 u)) eqn:Hit; [|exact Hmiss].
+    pose proof (C1' _ p0 p1 F) as D. cbv beta in D. apply andb_true_iff in D as [D0 D1]. cbn [fst snd].
+    assert (R0 : 0 <= p0 < 2147483648) by (unfold valid_rune, MaxRune in D0; lia).
+    assert (R1 : 0 <= p1 < 2147483648) by (unfold valid_rune, MaxRune in D1; lia).
+    rewrite !to_rune_small by assumption. split; assumption.
+  - cbn [repeat]. destruct ((0 =? u32 u) || (0 =? u32 u)); [cbn [fst snd to_rune]; split; reflexivity|exact Hmiss].
 Qed.
 
 End G2.
